@@ -34,6 +34,7 @@ type c09Scenario struct {
 	CancelAt    string    `json:"cancel_at,omitempty"`
 	CancelStep  int       `json:"cancel_at_step,omitempty"` // Ctrl-C right before this scheduling step (lands between two operations of the probe)
 	Reply       []byte    `json:"reply,omitempty"`
+	Decoy       string    `json:"other_scanner_timeouts,omitempty"` // a second scanner with these timeouts is created after the one under test
 }
 
 var c09Timeouts = []time.Duration{50 * time.Millisecond, 2 * time.Second, 5 * time.Second}
@@ -85,7 +86,9 @@ func c09Generate(p picker, o Opts) *c09Scenario {
 	if readN > 0 {
 		sc.Script = append(sc.Script, c09Step{Op: "read", N: readN})
 	}
-	switch p.n("fault", 10) {
+	switch p.n("fault", 11) {
+	case 10: // reply, then the peer keeps talking for ever (one byte every third of the data timeout)
+		sc.Script = append(sc.Script, c09Step{Op: "wait", Wait: lat("l1")}, c09Step{Op: "send", Bytes: reply}, c09Step{Op: "chatter", Wait: (data / 3).String(), N: 400})
 	case 0:
 		sc.Script = append(sc.Script, c09Step{Op: "close"})
 	case 1:
@@ -104,6 +107,9 @@ func c09Generate(p picker, o Opts) *c09Scenario {
 		sc.Script = append(sc.Script, c09Step{Op: "send", Bytes: reply}, c09Step{Op: []string{"close", "reset"}[p.n("afterr", 2)]})
 	default: // plain reply after a latency
 		sc.Script = append(sc.Script, c09Step{Op: "wait", Wait: lat("l1")}, c09Step{Op: "send", Bytes: reply}, c09Step{Op: "stall"})
+	}
+	if p.pct("decoy", 30) {
+		sc.Decoy = []time.Duration{dial * 20, dial / 20, time.Hour}[p.n("decoyv", 3)].String()
 	}
 	if p.pct("cancel", 25) {
 		if p.bool("cancelbystep") {
@@ -205,6 +211,15 @@ func runC09(t *testing.T, c simrt.Chooser, o Opts) *Out {
 							return
 						}
 					}
+				case "chatter":
+					simrtFault(out, "tcp-chatter")
+					for i := 0; i < st.N; i++ {
+						simrt.Sleep("c09.srv.chatter", parseDur(st.Wait))
+						if _, err := conn.Write([]byte{0x2e}); err != nil {
+							conn.Close()
+							return
+						}
+					}
 				case "stall":
 					buf := make([]byte, 64)
 					for {
@@ -234,6 +249,11 @@ func runC09(t *testing.T, c simrt.Chooser, o Opts) *Out {
 		defer cancel()
 		r.RegisterSignal(func() { cancelT = r.Now(); cancelFired = true; cancel() })
 		scanner := socks5.NewScanner(socks5.WithDialTimeout(dialTO), socks5.WithDataTimeout(dataTO))
+		if sc.Decoy != "" {
+			// another scanner of the same process, configured differently: scanners do not share settings
+			d := parseDur(sc.Decoy)
+			_ = socks5.NewScanner(socks5.WithDialTimeout(d), socks5.WithDataTimeout(d))
+		}
 		start := r.Now()
 		result, scanErr = scanner.Scan(ctx, &scan.Request{DstIP: net.IPv4(198, 51, 100, 7), DstPort: 1080})
 		dur = r.Now() - start
